@@ -6,16 +6,26 @@ use crate::prng;
 use serde_json::json;
 use std::process::Command;
 
-const VARIANTS: [(&str, &str); 4] = [
+/// The feature sets of the project's own CI matrix: each has its own cached target directory.
+const CI_VARIANTS: [(&str, &str); 4] = [
     ("none", ""),
     ("default", "f_default"),
     ("decode", "f_default,f_decode"),
     ("exp", "f_default,f_decode,f_experimental"),
 ];
+/// Every optional feature the property names, one at a time (quick tier, own target directories).
+const SINGLE_VARIANTS: [(&str, &str); 5] = [
+    ("only-log", "f_log"),
+    ("only-par", "f_par"),
+    ("only-serde", "f_serde"),
+    ("only-decode", "f_decode"),
+    ("only-experimental", "f_experimental"),
+];
+const ATOMS: [(&str, &str); 5] = [("log", "f_log"), ("par", "f_par"), ("serde", "f_serde"), ("decode", "f_decode"), ("experimental", "f_experimental")];
 
-fn build(name: &str, features: &str) -> Result<String, String> {
+fn build(target: &str, name: &str, features: &str) -> Result<String, String> {
     let root = crate::common::verif_dir();
-    let target = format!("{root}/target/feat-{name}");
+    let target = format!("{root}/target/{target}");
     let mut cmd = Command::new("cargo");
     cmd.current_dir(format!("{root}/harness-digest"))
         .env("CARGO_NET_OFFLINE", "true")
@@ -31,16 +41,65 @@ fn build(name: &str, features: &str) -> Result<String, String> {
     Ok(format!("{target}/release/fvdigest"))
 }
 
+/// All 32 subsets of the five optional features, minus the ones the quick tier already builds.
+/// They are built in four lanes; a lane re-uses one target directory (dependencies stay cached,
+/// only flacenc and the digest binary are rebuilt per set) and copies each binary aside.
+fn build_subsets() -> Vec<(String, Result<String, String>)> {
+    let root = crate::common::verif_dir();
+    let bins = format!("{root}/target/feat-bins");
+    let _ = std::fs::create_dir_all(&bins);
+    let mut sets: Vec<(String, String)> = vec![];
+    for mask in 0u32..32 {
+        let names: Vec<&str> = ATOMS.iter().enumerate().filter(|(i, _)| mask >> i & 1 == 1).map(|(_, a)| a.0).collect();
+        let feats: Vec<&str> = ATOMS.iter().enumerate().filter(|(i, _)| mask >> i & 1 == 1).map(|(_, a)| a.1).collect();
+        // already covered by the quick sets: {}, singletons, log+par+serde (+decode (+experimental))
+        if mask.count_ones() <= 1 || mask == 0b00111 || mask == 0b01111 || mask == 0b11111 {
+            continue;
+        }
+        sets.push((format!("set-{}", names.join("+")), feats.join(",")));
+    }
+    let lanes = 4usize;
+    let results: Vec<Vec<(String, Result<String, String>)>> = std::thread::scope(|s| {
+        let hs: Vec<_> = (0..lanes)
+            .map(|lane| {
+                let mine: Vec<(String, String)> = sets.iter().skip(lane).step_by(lanes).cloned().collect();
+                let bins = bins.clone();
+                s.spawn(move || {
+                    mine.into_iter()
+                        .map(|(name, feats)| {
+                            let r = build(&format!("feat-lane{lane}"), &name, &feats).and_then(|bin| {
+                                let dst = format!("{bins}/fvdigest-{name}");
+                                std::fs::copy(&bin, &dst).map(|_| dst).map_err(|e| format!("cannot copy the binary of {name}: {e}"))
+                            });
+                            (name, r)
+                        })
+                        .collect::<Vec<_>>()
+                })
+            })
+            .collect();
+        hs.into_iter().map(|h| h.join().unwrap_or_default()).collect()
+    });
+    results.into_iter().flatten().collect()
+}
+
 pub fn run_c20(ctx: &Ctx) -> i32 {
     let mut out = Outcome::default();
     let n = ctx.tier.pick(300u64, 3000u64);
-    // build the four variants in parallel
-    let bins: Vec<Result<String, String>> = std::thread::scope(|s| {
-        let hs: Vec<_> = VARIANTS.iter().map(|(name, f)| s.spawn(move || build(name, f))).collect();
-        hs.into_iter().map(|h| h.join().unwrap_or(Err("build thread died".into()))).collect()
+    // build the CI variants and the single-feature variants in parallel (cached target directories)
+    let fixed: Vec<(&str, &str)> = CI_VARIANTS.iter().chain(SINGLE_VARIANTS.iter()).cloned().collect();
+    let mut built: Vec<(String, Result<String, String>, bool)> = std::thread::scope(|s| {
+        let hs: Vec<_> = fixed.iter().map(|(name, f)| s.spawn(move || build(&format!("feat-{name}"), name, f))).collect();
+        hs.into_iter().zip(fixed.iter()).enumerate().map(|(i, (h, (name, _)))| (name.to_string(), h.join().unwrap_or(Err("build thread died".into())), i < CI_VARIANTS.len())).collect()
     });
+    if ctx.tier.pick(false, true) {
+        for (name, r) in build_subsets() {
+            built.push((name, r, false));
+        }
+    }
+    let mut not_buildable: Vec<String> = vec![];
     let mut listings: Vec<(String, Vec<String>, String)> = vec![];
-    for ((name, _), b) in VARIANTS.iter().zip(bins) {
+    for (name, b, ci) in built {
+        let name = &name;
         match b {
             Ok(bin) => {
                 let o = Command::new(&bin).args([ctx.seed.to_string(), n.to_string()]).output();
@@ -55,7 +114,10 @@ pub fn run_c20(ctx: &Ctx) -> i32 {
                     Err(e) => out.inconclusive.push(format!("cannot run fvdigest({name}): {e}")),
                 }
             }
-            Err(e) => out.inconclusive.push(e),
+            // the project's own CI sets must build; any other subset that does not compile is not a
+            // "buildable feature set" (the property quantifies over those): noted, not judged
+            Err(e) if ci => out.inconclusive.push(e),
+            Err(e) => not_buildable.push(e),
         }
     }
     // own computation (harness build = default + decode, hooks on)
@@ -93,11 +155,11 @@ pub fn run_c20(ctx: &Ctx) -> i32 {
     let feats: Vec<String> = listings.iter().map(|(n, _, f)| format!("{n}: {f}")).collect();
     let fin = Finish {
         level: "exploration",
-        rule: "a digest binary that depends on flacenc only (configuration built in code) is built with --no-default-features, default, default+decode and default+decode+experimental; each prints one hash per (input, configuration) of a fixed corpus derived from VERIF_SEED (all widths, 1/2/5/8 channels, signal families, boundary configurations without experimental options, multithread true and false, integer and byte fill); all listings, and the harness's own computation, must be identical line by line; evaluations = corpus cases; distinct = distinct non-empty cases",
-        assumptions: vec!["only the four feature sets of the project's own CI matrix are built".into()],
+        rule: "a digest binary that depends on flacenc only (configuration built in code) is built with --no-default-features, default, default+decode, default+decode+experimental and with each optional feature (log, par, serde, decode, experimental) alone; the thorough tier builds every one of the 32 subsets of those five features; each prints one hash per (input, configuration) of a fixed corpus derived from VERIF_SEED (all widths, 1/2/5/8 channels, signal families, boundary configurations without experimental options, multithread true and false, integer and byte fill); all listings, and the harness's own computation, must be identical line by line; evaluations = corpus cases; distinct = distinct non-empty cases",
+        assumptions: vec!["quick: the four feature sets of the project's own CI matrix and the five single-feature sets; thorough: all 32 subsets of {log, par, serde, decode, experimental}; simd-nightly / mimalloc / __export_sigen are not among the features the property names".into()],
         exhaustive: Some(false),
-        floors: vec![("feature-set listings compared".into(), listings.len() as u64, 5)],
-        extra: json!({"variants": feats}),
+        floors: vec![("feature-set listings compared".into(), listings.len() as u64, ctx.tier.pick(8, 28))],
+        extra: json!({"variants": feats, "feature_sets_that_do_not_build": not_buildable}),
     };
     finish(ctx, out, fin)
 }
